@@ -3,5 +3,5 @@ CONSTANTS
   ShortCookieRead = FALSE
   Alphabet <- AlphaGenDeep
   MaxRecs = 3
-  MaxChunks = 4
+  MaxChunks = 3
 INVARIANTS Emit
